@@ -19,9 +19,12 @@ import (
 
 // CacheWrite is one Cache.Write received.
 type CacheWrite struct {
-	Stamp int64
-	Data  []byte
-	Err   bool
+	Stamp  int64
+	Data   []byte
+	Err    bool
+	Clock  int64 // store wall clock (unix seconds) at the write
+	InPoll bool  // a refresh call was in flight
+	Task   string
 }
 
 // RecCache records writes, can fail, and delegates to an inner cache.
@@ -43,7 +46,8 @@ func (c *RecCache) Write(data []byte) error {
 	c.mu.Lock()
 	idx := len(c.Writes)
 	fail := c.FailWrites[idx]
-	c.Writes = append(c.Writes, CacheWrite{Stamp: c.w.Stamp(), Data: append([]byte{}, data...), Err: fail})
+	c.Writes = append(c.Writes, CacheWrite{Stamp: c.w.Stamp(), Data: append([]byte{}, data...), Err: fail,
+		Clock: c.w.NowFn().Unix(), InPoll: c.w.InFlight() > 0, Task: c.w.S.CurTask().Name})
 	c.mu.Unlock()
 	if fail {
 		c.w.S.Fault("cache-write-error")
@@ -106,8 +110,13 @@ type FakeTicker struct {
 	mu    sync.Mutex
 }
 
-func (f *FakeTicker) Chan() <-chan time.Time { return f.ch }
-func (f *FakeTicker) Stop()                  {}
+func (f *FakeTicker) Chan() <-chan time.Time {
+	// called once by the poller goroutine: this names it (as a child of the
+	// constructing task), so that the goroutines it spawns get stable names
+	f.w.S.CurTask()
+	return f.ch
+}
+func (f *FakeTicker) Stop() {}
 func (f *FakeTicker) Done() {
 	f.mu.Lock()
 	f.Dones++
